@@ -19,6 +19,7 @@ import (
 	"time"
 
 	"pgregory.net/rapid"
+	"verif.local/cqlspec"
 	"verif.local/vnode"
 	"verif.local/vstats"
 	"verif.local/vx"
@@ -666,5 +667,108 @@ func TestVxC06IdleAfterHandshake(t *testing.T) {
 		},
 		New: func() interface{} { return &vxC06IdleCase{} },
 		Run: func(ci interface{}, k *vstats.Case) error { return vxRunC06Idle(ci.(*vxC06IdleCase), k) },
+	})
+}
+
+// ---------------------------------------------------------------------------------------------
+// A connection lost while the pool's fill is still connecting: the error handler's own fill() finds the filling
+// flag set and returns; the running fill computed its count before the loss. The pool must be whole again
+// without anybody asking (an idle session, a host no query is routed to).
+
+type vxC17LostFillCase struct {
+	Proto    int `json:"proto"`
+	NumConns int `json:"num_conns"` // 2..4
+	HoldMs   int `json:"hold_ms"`   // how long the handshake of the last connection is held
+}
+
+func vxRunC17LostFill(c *vxC17LostFillCase, k *vstats.Case) error {
+	if c.Proto < 1 || c.Proto > 5 || c.NumConns < 2 || c.NumConns > 4 || c.HoldMs < 20 || c.HoldMs > 500 {
+		return nil
+	}
+	cl := vnode.NewCluster(vxSpecs(1, 1))
+	node := cl.Nodes()[0]
+	var mu sync.Mutex
+	startups := 0
+	var heldRC *vnode.ReqCtx
+	heldCh := make(chan struct{})
+	node.Intercept = func(rc *vnode.ReqCtx) bool {
+		if rc.Req.Kind != "STARTUP" {
+			return false
+		}
+		mu.Lock()
+		defer mu.Unlock()
+		startups++
+		// connection 1 is the control connection's; the pool's are 2 .. NumConns+1
+		if startups == c.NumConns+1 && heldRC == nil {
+			heldRC = rc
+			close(heldCh)
+			return true
+		}
+		return false
+	}
+	s, err := vxClusterConfig(cl, c.Proto, func(cfg *ClusterConfig) {
+		cfg.NumConns = c.NumConns
+		cfg.ConnectTimeout = 3 * time.Second
+	}).CreateSession()
+	if err != nil {
+		return fmt.Errorf("harness: CreateSession: %v", err)
+	}
+	defer s.Close()
+	select {
+	case <-heldCh:
+	case <-time.After(5 * time.Second):
+		return fmt.Errorf("harness: the last pool connection never started its handshake")
+	}
+	// the fill is waiting for that handshake; meanwhile a connection that is already in the pool is lost
+	var victim *Conn
+	for deadline := time.Now().Add(3 * time.Second); victim == nil && time.Now().Before(deadline); time.Sleep(time.Millisecond) {
+		if pcs := vxPoolConns(s); len(pcs) > 0 {
+			victim = pcs[0]
+		}
+	}
+	if victim == nil {
+		return fmt.Errorf("harness: no pool connection yet")
+	}
+	for _, sc := range node.Conns() {
+		if net.Conn(sc.Client) == victim.conn {
+			sc.Close()
+		}
+	}
+	time.Sleep(time.Duration(c.HoldMs) * time.Millisecond)
+	mu.Lock()
+	rc := heldRC
+	mu.Unlock()
+	rc.Reply(&cqlspec.Response{Kind: "READY"})
+	// nobody asks anything
+	deadline := time.Now().Add(4 * time.Second)
+	for {
+		open := 0
+		for _, pc := range vxPoolConns(s) {
+			if !pc.Closed() {
+				open++
+			}
+		}
+		if open == c.NumConns {
+			break
+		}
+		if time.Now().After(deadline) {
+			return fmt.Errorf("a pool connection was lost while the pool's fill was still connecting (the last handshake answered %d ms later); 4 s later, with no query issued, the pool holds %d of %d connections", c.HoldMs, open, c.NumConns)
+		}
+		time.Sleep(5 * time.Millisecond)
+	}
+	k.NonTrivial()
+	k.Class(fmt.Sprintf("lost during fill: numconns=%d", c.NumConns))
+	return nil
+}
+
+func TestVxC17LostDuringFill(t *testing.T) {
+	vx.Check(t, vx.Prop{
+		ID: "C17", Part: "TestVxC17LostDuringFill",
+		Rule: "protocol 1..5, one host with 2..4 connections; the handshake of the pool's last connection is held by the node for 20..300 ms, meanwhile the node closes a connection that is already in the pool; no query is issued; oracle: within 4 s of the held handshake's answer the pool holds NumConns open connections; every case is non-trivial; distinct by the case",
+		Draw: func(t *rapid.T) interface{} {
+			return &vxC17LostFillCase{Proto: rapid.IntRange(1, 5).Draw(t, "proto"), NumConns: rapid.IntRange(2, 4).Draw(t, "numconns"), HoldMs: rapid.SampledFrom([]int{20, 100, 300}).Draw(t, "hold")}
+		},
+		New: func() interface{} { return &vxC17LostFillCase{} },
+		Run: func(ci interface{}, k *vstats.Case) error { return vxRunC17LostFill(ci.(*vxC17LostFillCase), k) },
 	})
 }
